@@ -1617,6 +1617,15 @@ class Interp:
             outs.append(s)
             return outs
         d = self.current(st, d) if d.cmp is None else d
+        if self.opts.get("taint_tags") and not d.is_const():
+            tg = set()
+            for x in (d,) + tuple(y for y in (d.cmp[1:] if d.cmp else ()) if isinstance(y, IntVal)):
+                for t in x.tags:
+                    if isinstance(t, tuple) and t and (t in self.opts["taint_tags"] or t[:2] in self.opts["taint_tags"]):
+                        tg.add(t)
+            if tg:
+                self.event(st, "tainted_branch", fn=fr.fn["path"], tags=tuple(sorted(tg, key=repr)), span=sw.get("span"),
+                           chain=tuple(f.fn["path"] for f in st.frames))
         if d.is_const():
             c = d.lo
             for v, b in targets:
